@@ -312,6 +312,12 @@ def shape_rule(ctx, short: str) -> None:
     ok_shape = shape_arg is not None and isinstance(shape_arg, ast.Attribute) and shape_arg.attr == "shape" and is_name(strip_norm(shape_arg.value), arg)
     ctx.rep.check(ok_reshape and ok_shape, rule, c + "/reshape", "result is reshaped to the shape of the argument",
                   f"the result `{show(val)[:70]}` is not reshaped to the shape of the given array: the shape of the argument is not preserved", where=w)
+    if ok_reshape and ok_shape:
+        from ..defuse import norm_chains
+
+        conv = any(nm in ("array", "asarray", "asanyarray", "atleast_1d", "atleast_2d") for ch in norm_chains(shape_arg.value) for nm, _c in ch)
+        ctx.rep.check(conv, rule, c + "/array-like", "the argument is converted to an array before its shape is read",
+                      f"`.shape` is read from `{show(shape_arg.value)[:40]}`, the argument as given: a list of well IDs (any array-like is accepted by the siblings) has no shape - the call fails", where=w)
     # elements iterated: the flattened array
     iters = []
     for n in fv.cfg.nodes:
